@@ -11,7 +11,7 @@ PROPS = {
         "level_text": "Kernel-checked Lean theorems: for every well-formed filter set in ANY enumeration order, level_sort + first-match "
                       "equals the declarative longest-prefix/default/off rule (enabled_longest_prefix, enabled_levelSort); plain targets are "
                       "passed on iff enabled and regex-matched (log_iff); the max-level gate admits everything the spec or a writer accepts "
-                      "(gate_admits_*); enabled() is sound for plain targets and addressed writers; the {_Default} case is proved FALSE "
+                      "(gate_admits_*) and is tight — off, a filter's level or a writer's ceiling, off iff everybody is off (companion Props/C02Gate: gate_tight, gate_off_iff); the decision is downward closed in the level and a threshold test per target (enabled_downward, enabled_threshold); enabled() is sound for plain targets and addressed writers; the {_Default} case is proved FALSE "
                       "(witness) and is a known finding. The model is tied to the code by a differential check on seeded specs/targets/messages "
                       "plus a declarative oracle evaluated on the real logger.",
         "level_note": "Trusted: Lean kernel; regex and log crates; the hand-written Spec model is validated against the code only on the generated "
